@@ -374,11 +374,13 @@ bool LineParser::parse_git_extended_info(Patch& patch, int strip)
     auto parse_filename = [&](std::string& output, const std::string& prefix) {
         // NOTE: we do 'strip - 1' here as the extended headers do not come with a leading
         // "a/" or "b/" prefix - strip the filename as if this part is already stripped.
+        // Not stripping at all keeps the name as it is (a strip of -1 would mean its base name).
+        const int strip_of_name = strip == 0 ? 0 : strip - 1;
         if (peek() == '"') {
             output = parse_quoted_string();
-            output = strip_path(output, strip - 1);
+            output = strip_path(output, strip_of_name);
         } else {
-            output = strip_path(std::string(m_current, m_end), strip - 1);
+            output = strip_path(std::string(m_current, m_end), strip_of_name);
         }
 
         // Special case - we're not stripping at all. So make sure to add on the "a/" or "b/" prefix.
